@@ -256,6 +256,9 @@ ApplyCmd(m0) ==
     [] e.a = "multi" -> [m EXCEPT !.open = TRUE]
     [] e.a = "seek_to" ->
          IF m.stopped THEN m
+         \* (a seek while the play head stands between two source frames: whether the sub-frame phase survives the seek is within
+         \*  "seeks land within one frame" - nothing is claimed about the interpolated values afterwards)
+         ELSE IF m.f # 0 THEN [m EXCEPT !.open = TRUE]
          ELSE IF ~Audible(m) THEN [m EXCEPT !.open = TRUE]
          \* a target outside the loop region (but inside the audio): the seek lands on the requested time if that lies in front
          \* of the loop (the sound then runs into its loop), or somewhere inside the region - where is left to the implementation;
@@ -269,6 +272,7 @@ ApplyCmd(m0) ==
                         !.nearEnd = \E h \in m.hyps : h.q = NONE /\ h.g = 0]
     [] e.a = "seek_by" ->
          IF m.stopped THEN m
+         ELSE IF m.f # 0 THEN [m EXCEPT !.open = TRUE]
          \* (a relative seek while a loop-region change is still taking effect has no fixed reference point)
          ELSE IF ~Audible(m) \/ (\E h \in m.hyps : h.w[2] = ANY) \/ (m.cmd = "loop" /\ m.age <= 4)
                  \/ ~(SeekByTargets(m, e.d) \subseteq Region(m)) THEN [m EXCEPT !.open = TRUE]
